@@ -22,7 +22,7 @@ RULE = (
     "{1-D, 2-D C / Fortran order, with extra coordinate, integer dtype for both or one coordinate} x dyadic scale/offset frames; in each case every node of the quarter-unit lattice over the "
     "region plus one block on every side is labelled and compared with exact rational block edges (edge points: either neighbour; "
     "outside points: clamped per axis). Non-trivial: at least two blocks and one point strictly inside some block."
-    " Added axes: Fortran and integer forms, points 1e-3 ... 1e-9 block widths beside every internal edge (guard band 64 ulp), degenerate inferred regions, frames 2^-30 and (2^-10, 2^20), numpy-array arguments, 120 000 ... 240 000 blocks, 60 000 ... 262 145 points, staggered 2-D grids."
+    " Added axes: Fortran and integer forms, points 1e-3 ... 1e-9 block widths beside every internal edge (guard band 64 ulp), degenerate inferred regions, frames 2^-30 and (2^-10, 2^20), numpy-array arguments, 120 000 ... 240 000 blocks, 60 000 ... 262 145 points, staggered 2-D grids, coordinates as column / reversed views of one (N, 2) table."
 )
 ASSUMPTIONS = ["lattice and block edges are rational; float evaluation of a strict-inside test cannot flip because a lattice "
                "point is either exactly on an edge or at least 1/48 of a unit away from it"]
@@ -72,7 +72,7 @@ def _cases(tier, seed):
             for adjust in ("spacing", "region"):
                 if "shape" in spec and adjust == "region":
                     continue
-                for form in ("1d", "2d", "2d+extra", "2dF", "int", "int_e", "2d_stagger"):
+                for form in ("1d", "2d", "2d+extra", "2dF", "int", "int_e", "2d_stagger", "table_ne", "table_rev"):
                     for region in REGIONS:
                         yield dict(frame=fr, spec=spec, adjust=adjust, form=form, region=region, given=True)
                     if (form not in ("1d",) and tier == "quick") or form in ("int", "int_e", "2d_stagger"):
@@ -236,6 +236,15 @@ def run(case, rec):
         north = np.concatenate([north, np.repeat(north[:1], padn)]).reshape(-1, cols)
     if form == "2dF":
         east, north = np.asfortranarray(east), np.asfortranarray(north)
+    if form in ("table_ne", "table_rev"):
+        # 1-D coordinates that are views of ONE (N, 2) table: its columns in (northing, easting) order, or reversed views of a table whose
+        # rows are stored last-to-first (round 8, seed C08-16: a no-copy path returning the shared base array whatever the views select)
+        if form == "table_ne":
+            tab = np.column_stack([north, east])
+            east, north = tab[:, 1], tab[:, 0]
+        else:
+            tab = np.column_stack([east, north])[::-1].copy()
+            east, north = tab[::-1, 0], tab[::-1, 1]
     if form in ("int", "int_e"):
         # integer-valued points passed with an integer dtype (both coordinates, or the easting only): added after seeds C08-1 / C15-2
         keep = (east == np.round(east)) & (north == np.round(north)) & (np.abs(east) < 2 ** 40) & (np.abs(north) < 2 ** 40)
